@@ -2,7 +2,6 @@ package client
 
 import (
 	"context"
-	"errors"
 	"fmt"
 	"net"
 
@@ -86,7 +85,11 @@ func (l *listener) AcceptWithContext(ctx context.Context) (net.Conn, error) {
 			return nil, ctx.Err()
 		}
 
-		if errors.Is(err, yamux.ErrSessionShutdown) || errors.Is(err, net.ErrClosed) {
+		if l.closeCtx.Err() != nil {
+			// The listener was closed locally (Close or Shutdown). Otherwise
+			// the session was closed by the server or the network, which
+			// surfaces as the same errors (yamux.ErrSessionShutdown or
+			// net.ErrClosed), so we must reconnect.
 			return nil, ErrClosed
 		}
 
